@@ -80,6 +80,9 @@
                        of the run, its next step is not a miss -- whatever the others do
                        to the other slots of the chain meanwhile (the visible slot of a
                        key does not move while the key stays visible: kpos_xstep).
+     C04_load_miss     ... equivalently (visibility is decidable): a lookup that misses is
+                       justified by a state of the run in which k was NOT visible in the
+                       table -- "a completed write is never lost" as seen by readers.
    NOT a closed theorem: the final composition into "every history is
    linearizable": readers linearize at a moment inside their interval (C16 gives
    what they do, C04_vis_step what they can see), and a writer that passed its
@@ -221,6 +224,20 @@ Theorem C04_load_no_miss :
     ~ In (XRes t (XRVal None false)) ls2 /\ (forall cx, g_pc s2 t <> PW_Table cx).
 Proof. exact @load_no_miss_proof. Qed.
 Print Assumptions C04_load_no_miss.
+
+Theorem C04_load_miss :
+  forall (K V : Type) (eqd : forall a b : K, {a = b} + {a <> b}) hash idx tag nslots seeds g sh probe nstripes minlen grow_only,
+    xhyps4 idx nstripes minlen nslots probe -> forall len0 todo sched0 sched t k lc tab s2 ls2, (0 < len0)%nat ->
+    let xr := @xrun K V eqd hash idx tag nslots seeds g sh probe nstripes minlen grow_only in
+    let s := fst (xr (xinit nslots seeds nstripes len0 todo) sched0) in
+    along eqd hash idx tag nslots seeds g sh probe nstripes minlen grow_only (inlookup hash nslots nstripes t k lc tab) s sched ->
+    (exists k' lc' tab' h, g_pc s t = PL_Meta k' lc' tab' h 0) ->
+    @xstep K V eqd hash idx tag nslots seeds g sh probe nstripes minlen grow_only (fst (xr s sched)) t = Some (s2, ls2) ->
+    (In (XRes t (XRVal None false)) ls2 \/ exists cx, g_pc s2 t = PW_Table cx) ->
+    ever eqd hash idx tag nslots seeds g sh probe nstripes minlen grow_only
+         (fun s' => forall q, ~ kpos hash idx nslots nstripes k tab s' q) s sched.
+Proof. exact @load_miss_proof. Qed.
+Print Assumptions C04_load_miss.
 
 Theorem C04_instance :
   forall hint, xhyps4 idx_mapof nstripes_x (minlen_of_hint true hint) (Z.to_nat Params.entriesPerMapOfBucket) probe_x.
